@@ -209,8 +209,50 @@ def native_checks():
     return [{'name': 'list_returned_by_action_is_one_element', 'ok': ok, 'known': None if ok or 'F27' not in known else 'F27', 'detail': repr(got)}]
 
 
+def make_reuse(spec):
+    """ONE generated-parser object parses the same text twice with different semantics objects: the second parse must call the methods of the
+    object given to THAT parse (or none), exactly like a fresh parser."""
+    from ..pegbody import GenParser, norm
+    rules, params, decorators = GRAMMARS[spec['grammar']]
+    gtext = render(rules, params, decorators)
+    gen = GenParser(gtext, SETTINGS)
+    first, second = spec['first'], spec['second']
+
+    def run(parser, t, kind, log):
+        from tatsu.exceptions import FailedParse
+        kw = {} if kind == 'none' else {'semantics': make_semantics(kind, log)}
+        try:
+            return ('ok', norm(parser.parse(t, **SETTINGS, **kw)))
+        except FailedParse:
+            return ('fail', None)
+        except Exception as e:  # noqa: BLE001
+            return ('raised', type(e).__name__)
+
+    def body(args):
+        t = mktext(args)
+        shared = gen.cls()
+        l1, l2, l3 = [], [], []
+        run(shared, t, first, l1)
+        got = run(shared, t, second, l2)
+        want = run(gen.cls(), t, second, l3)
+        if got != want:
+            return False, 'second-parse-differs-from-fresh-parser', [got[0], want[0], skel(got[1]) if got[0] == 'ok' else got[1], skel(want[1]) if want[0] == 'ok' else want[1]]
+        if [r[0] for r in l2] != [r[0] for r in l3]:
+            return False, 'second-parse-called-other-actions', [[r[0] for r in l2], [r[0] for r in l3]]
+        return True, got[0], [len(l2)]
+
+    n = spec['n']
+    body.explain = lambda args: f'grammar:\n{gtext}text={mktext(args)!r} first={first} second={second}'
+    body.warm = [tuple(map(ord, w)) for w in ['', 'a', 'b', 'ax', 'by', 'ab', 'aax', 'abx', 'bb', 'bc', 'abz'] if len(w) == n]
+    return body
+
+
 def plan(tier, seed):
     obs = []
+    for gn, first, second in (('alt_retry', 'tag', 'default_only'), ('alt_retry', 'tag', 'none'), ('alt_retry', 'none', 'tag'), ('params', 'explicit_params', 'tag')):
+        for n in ((1, 2) if tier == 'quick' else (1, 2, 3)):
+            obs.append(Ob(name=f'reuse_{gn}_{first}_then_{second}_L{n}', factory='vt.props.c06:make_reuse', spec={'grammar': gn, 'first': first, 'second': second, 'n': n},
+                          params=[(f'c{i}', 0, UNI) for i in range(n)], budget={1: 60, 2: 150, 3: 600}[n], group='reuse'))
     maxn = 3 if tier == 'quick' else 4
     gs = list(GRAMMARS)
     for gn in gs:
